@@ -740,12 +740,15 @@ impl<'a> Compiler<'a> {
                                                 index: stack_start + i as VmIndex,
                                             };
                                     }
-                                    x => ice!(
-                                        "Expected record as last expression of recursive binding `{}`: {:?}\n{}",
-                                        closure.name.name,
-                                        x,
-                                        closure.expr
-                                    ),
+                                    // Only functions and data that is constructed directly can be
+                                    // tied into a recursive knot, anything else is an error in the
+                                    // program and not in the compiler
+                                    _ => {
+                                        return Err(Error::Message(format!(
+                                            "The recursive binding `{}` must be a function, a record or a variant constructor",
+                                            closure.name.name.declared_name(),
+                                        )));
+                                    }
                                 }
                             } else {
                                 let (function_index, vars, cf) = self.compile_lambda(
